@@ -26,6 +26,28 @@ FastaIndex(path).auto_load(); it must raise or show exactly that.
     against the FASTA bytes, so state carried from one indexing run to the next inside the process shows.
 After (a), (d) and (e) the cache files themselves are read with this module's own parsers: if both exist and are strictly
 newer than the FASTA (what any later process will take as valid) they must describe the FASTA bytes.
+
+Layouts.  The path handed to FastaIndex, and the cache files found next to it, need not be regular files: data staged by a
+workflow manager are symbolic links.  Histories (a), crash points (b), injections (d) and complete runs (f) are therefore
+also executed with the FASTA path being a symbolic link (or a chain of two) to the real file - rewrites go to the target, by
+writing in place or by replacing it - and with the cache files being symbolic links to files kept elsewhere (history
+operation S "stage": every cache file present is moved to a store directory and a link is left under its name).  A link's
+own timestamp says when the link was made, not when the content was written: links to the FASTA are made before
+everything else, links to cache files at the logical time of the staging.  The oracle is the same: raise, or show the
+current bytes of the FASTA.
+
+(f) publication rule ("a reader never observes a half-written cache file as valid"): the final name <fasta>.fai /
+    <fasta>.agp may only ever come into existence, or change, by a rename of a completely written file from the SAME
+    directory (the only operation that is atomic whatever file systems are mounted).  Under the interception of file
+    operations a complete auto_load() / run_indexing() is executed from every cache state and the following are failures:
+    opening the final name for writing (builtins.open, io.open, os.open; this is also what a copy onto it does); a rename /
+    move onto it from another directory (a temporary file outside the FASTA's directory: a rename only if both happen to be on
+    one file system); a rename of a file that does not, at that moment, hold the complete index / assembly of the FASTA
+    bytes; a final file that differs after the run although no rename onto it was seen.  Each run is done with TMPDIR as it
+    is and with TMPDIR pointing elsewhere (/dev/shm if usable, else a second temporary directory); the rule itself does not
+    need a second file system.  The same monitor is active in (c) and (d).  If the sequence of file operations of a run
+    depends on where TMPDIR points, the crash points of (b) are explored for that placement as well (with shutil's
+    sendfile shortcut off, so that a copy is a sequence of writes).
 """
 
 import builtins
@@ -217,6 +239,41 @@ def observe(path, obj=None, method="auto_load"):
         return ("raised", f"{type(e).__name__}: {e}")
 
 
+def parse_fai_lines(lines):
+    """this module's own reader of a .fai: index rows, or None if not parseable"""
+    index = []
+    try:
+        for line in lines:
+            name, *nums = line.split()
+            if len(nums) != 4:
+                return None
+            index.append([name] + [int(x) for x in nums])
+    except ValueError:
+        return None
+    return index
+
+
+def parse_agp_lines(lines):
+    """this module's own reader of an .agp: [[scaffold, rows]], or None if not parseable"""
+    asm = []
+    try:
+        for line in lines:
+            if not line.strip() or line.startswith("#"):
+                continue
+            c = line.split("\t")
+            if len(c) < 9:
+                return None
+            if not asm or asm[-1][0] != c[0]:
+                asm.append([c[0], []])
+            if c[4] in ("U", "N"):
+                asm[-1][1].append(["G", int(c[5]), c[6]])
+            else:
+                asm[-1][1].append(["F", c[5], int(c[6]), int(c[7]), {"+": 1, "-": -1}.get(c[8], 0)])
+    except ValueError:
+        return None
+    return asm
+
+
 def cache_on_disk_claim(fa, data):
     """
     What a later process finds: if <fa>.fai and <fa>.agp both exist and are strictly newer than the FASTA they pass for
@@ -233,27 +290,8 @@ def cache_on_disk_claim(fa, data):
             agp_lines = fh.read().splitlines()
     except FileNotFoundError:
         return None
-    try:
-        index = []
-        for line in fai_lines:
-            name, *nums = line.split()
-            if len(nums) != 4:
-                return None
-            index.append([name] + [int(x) for x in nums])
-        asm = []
-        for line in agp_lines:
-            if not line.strip() or line.startswith("#"):
-                continue
-            c = line.split("\t")
-            if len(c) < 9:
-                return None
-            if not asm or asm[-1][0] != c[0]:
-                asm.append([c[0], []])
-            if c[4] in ("U", "N"):
-                asm[-1][1].append(["G", int(c[5]), c[6]])
-            else:
-                asm[-1][1].append(["F", c[5], int(c[6]), int(c[7]), {"+": 1, "-": -1}.get(c[8], 0)])
-    except ValueError:
+    index, asm = parse_fai_lines(fai_lines), parse_agp_lines(agp_lines)
+    if index is None or asm is None:
         return None
     return judge(("ok", index, asm), data)
 
@@ -319,12 +357,91 @@ class EventText(io.TextIOWrapper):
 class FileOps:
     """context manager: file operations on paths under `watch` call hook(label, path) first"""
 
-    def __init__(self, watch, hook, pid_of=None, text_events=False):
+    def __init__(self, watch, hook, pid_of=None, text_events=False, fasta=None, data=None):
         self.watch = str(watch)
         self.hook = hook
         self.pid_of = pid_of
         self.text_events = text_events  # also report write() calls on text handles (exception injection points)
         self.saved = {}
+        # publication rule (f): how the final cache names of `fasta` (whose bytes are `data`) come into existence
+        self.finals = {os.path.abspath(fasta + ext): ext for ext in (".fai", ".agp")} if fasta else {}
+        self.data = data
+        self.violations = []
+        self.renamed_onto = set()
+        self.before = {}
+
+    def final_name(self, p):
+        """extension of the final cache name that p denotes, else None"""
+        if isinstance(p, int) or not self.finals:
+            return None
+        try:
+            return self.finals.get(os.path.abspath(os.fspath(p)))
+        except TypeError:
+            return None
+
+    def violation(self, text):
+        if text not in self.violations:
+            self.violations.append(text)
+
+    def entry_sig(self, p):
+        """identity of what is found under a name: the directory entry itself and what it leads to"""
+        out = []
+        for follow in (False, True):
+            try:
+                st = self.saved["stat"](p, follow_symlinks=follow)
+                out.append((st.st_ino, st.st_mtime_ns, st.st_size))
+            except OSError:
+                out.append(None)
+        return tuple(out)
+
+    def check_opened_for_writing(self, path, how):
+        ext = self.final_name(path)
+        if ext:
+            self.violation(
+                f"the cache file {os.path.basename(os.fspath(path))} is opened for writing under its final name ({how}): its content is "
+                "built up (or copied) in place, so a crash or a reader in between finds a partial file under the name and with the "
+                "fresh mtime of a valid cache; the name may only appear by a rename of a completely written file"
+            )
+
+    def check_rename(self, src, dst):
+        ext = self.final_name(dst)
+        if not ext:
+            return
+        dst_s, src_s = os.path.abspath(os.fspath(dst)), os.path.abspath(os.fspath(src))
+        self.renamed_onto.add(dst_s)
+        if os.path.dirname(src_s) != os.path.dirname(dst_s):
+            self.violation(
+                f"the cache file {os.path.basename(dst_s)} is put in place by moving the temporary file {src_s} from another directory "
+                f"than the FASTA's ({os.path.dirname(dst_s)}): that is an atomic rename only while both happen to be on one file system, "
+                "otherwise it fails or becomes a copy under the final name"
+            )
+        if self.data is None:
+            return
+        try:
+            with self.saved["open"](src_s, "rb") as fh:
+                lines = fh.read().decode(errors="replace").splitlines()
+        except OSError as e:
+            self.violation(f"the file {src_s} renamed to {os.path.basename(dst_s)} cannot be read at that moment ({e})")
+            return
+        index, asm = brute(self.data)
+        got, want, what = (parse_fai_lines(lines), index, "index rows") if ext == ".fai" else (parse_agp_lines(lines), asm, "scaffolds")
+        if got != want:
+            self.violation(
+                f"the temporary file renamed to {os.path.basename(dst_s)} is not completely written at the moment of the rename: it holds "
+                f"{'something unparseable' if got is None else f'{len(got)} {what}'} in {len(lines)} lines, the FASTA content has {len(want)} {what}"
+            )
+
+    def finish(self):
+        """after the run: a final file that is different now must have been renamed into place"""
+        for p in self.finals:
+            now = self.entry_sig(p)
+            if now[1] is not None and now != self.before.get(p) and p not in self.renamed_onto:
+                if not any(os.path.basename(p) in v for v in self.violations):
+                    self.violation(
+                        f"the cache file {os.path.basename(p)} is new or different after the run although nothing was renamed onto it: it "
+                        "was written in place by an operation other than an atomic rename"
+                    )
+        return self.violations
 
     def watched(self, p):
         if isinstance(p, int):
@@ -345,12 +462,16 @@ class FileOps:
             "remove": os.remove,
             "stat": os.stat,
             "getpid": os.getpid,
+            "os_open": os.open,
         }
+        self.before = {p: self.entry_sig(p) for p in self.finals}
 
         def my_open(file, mode="r", buffering=-1, encoding=None, errors=None, newline=None, closefd=True, opener=None):
             if opener is not None or not self.watched(file):
                 return real_open(file, mode, buffering, encoding, errors, newline, closefd, opener)
             rawmode = mode.replace("b", "").replace("t", "")
+            if rawmode != "r":
+                self.check_opened_for_writing(file, f"open(..., {mode!r})")
             raw = EventFileIO(os.fspath(file), rawmode, self.hook)
             if rawmode == "r":
                 buf = io.BufferedReader(raw)
@@ -368,9 +489,16 @@ class FileOps:
             def f(src, dst, *a, **kw):
                 if self.watched(dst):
                     self.hook(label, os.fspath(dst))
+                    self.check_rename(src, dst)
                 return real(src, dst, *a, **kw)
 
             return f
+
+        def my_os_open(path, flags, mode=0o777, *, dir_fd=None):
+            if dir_fd is None and self.watched(path) and flags & (os.O_WRONLY | os.O_RDWR | os.O_CREAT | os.O_TRUNC | os.O_APPEND):
+                self.hook("os-open-w", os.fspath(path))
+                self.check_opened_for_writing(path, "os.open with write flags")
+            return s["os_open"](path, flags, mode, dir_fd=dir_fd)
 
         def wrap1(name, label):
             real = s[name]
@@ -389,6 +517,7 @@ class FileOps:
         os.unlink = wrap1("unlink", "unlink")
         os.remove = wrap1("remove", "unlink")
         os.stat = wrap1("stat", "stat")
+        os.open = my_os_open
         if self.pid_of:
             real_getpid = s["getpid"]
             os.getpid = lambda: self.pid_of() or real_getpid()
@@ -399,6 +528,7 @@ class FileOps:
         builtins.open = s["open"]
         io.open = s["io_open"]
         os.replace, os.rename, os.unlink, os.remove, os.stat, os.getpid = s["replace"], s["rename"], s["unlink"], s["remove"], s["stat"], s["getpid"]
+        os.open = s["os_open"]
         return False
 
 
@@ -424,21 +554,57 @@ LOAD_OPS = {
 }
 
 
-def run_history(ops, col, inp, same_size_family=False):
+def set_link_time(p, when):
+    """the timestamp of a symbolic link itself (when the link was made)"""
+    if os.utime in os.supports_follow_symlinks:
+        os.utime(p, (when, when), follow_symlinks=False)
+
+
+HISTORY_LAYOUTS = ("plain", "link", "chain")
+
+
+def place_fasta(d, layout, data, when):
+    """
+    Puts the FASTA bytes in place; returns (path for FastaIndex, path of the real file).  plain: one regular file; link: the
+    path is a symbolic link to the real file in another directory; chain: a link to a link to the real file.  Links are made
+    at time when - 10, before the content.
+    """
+    fa = os.path.join(d, "asm.fa")
+    real = fa
+    if layout != "plain":
+        os.mkdir(os.path.join(d, "data"))
+        real = os.path.join(d, "data", "genome.fa")
+        if layout == "chain":
+            os.mkdir(os.path.join(d, "staged"))
+            mid = os.path.join(d, "staged", "asm.fa")
+            os.symlink(real, mid)
+            os.symlink(mid, fa)
+            set_link_time(mid, when - 10)
+        else:
+            os.symlink(real, fa)
+        set_link_time(fa, when - 10)
+    with open(real, "wb") as fh:
+        fh.write(data)
+    os.utime(real, (when, when))
+    return fa, real
+
+
+def run_history(ops, col, inp, same_size_family=False, layout="plain"):
     """
     ops: [[op, tick], ...] with op in W (rewrite, other size), Ws (rewrite, same size in bytes; needs same_size_family),
-    Dfai, Dagp, D (both), and the loads of LOAD_OPS.  All in this process.  Returns number of loads judged.
+    Dfai, Dagp, D (both), S (stage: cache files present become symbolic links to files in a store directory, the links
+    made now) and the loads of LOAD_OPS.  All in this process.  layout: see place_fasta; rewrites go to the real file (link:
+    written in place; chain: replaced by a new file).  Returns number of loads judged.
     """
     judged = 0
+    how = "" if layout == "plain" else f" [FASTA path is a symbolic link ({layout}) to the real file, rewrites go to the target]"
     with tempfile.TemporaryDirectory() as d:
-        fa = os.path.join(d, "asm.fa")
-        caches = [fa + ".fai", fa + ".agp"]
         content = Content(same_size_family)
         data = content.data
-        with open(fa, "wb") as fh:
-            fh.write(data)
         t = T0
-        os.utime(fa, (t, t))
+        fa, real = place_fasta(d, layout, data, t)
+        caches = [fa + ".fai", fa + ".agp"]
+        n_staged = 0
         long_lived = FastaIndex(pathlib.Path(fa))
         for step, (op, tick) in enumerate(ops):
             t += tick
@@ -446,13 +612,27 @@ def run_history(ops, col, inp, same_size_family=False):
                 size = len(data)
                 data = content.rewrite(same_size=op == "Ws")
                 assert not same_size_family or (len(data) == size) == (op == "Ws")
-                with open(fa, "wb") as fh:
-                    fh.write(data)
-                os.utime(fa, (t, t))
+                if layout == "chain":
+                    with open(real + ".new", "wb") as fh:
+                        fh.write(data)
+                    os.replace(real + ".new", real)
+                else:
+                    with open(real, "wb") as fh:
+                        fh.write(data)
+                os.utime(real, (t, t))
             elif op in ("Dfai", "Dagp", "D"):
                 for p, o in zip(caches, ("Dfai", "Dagp")):
-                    if op in (o, "D") and os.path.exists(p):
+                    if op in (o, "D") and os.path.lexists(p):
                         os.unlink(p)
+            elif op == "S":
+                os.makedirs(os.path.join(d, "store"), exist_ok=True)
+                for p in caches:
+                    if os.path.exists(p) and not os.path.islink(p):
+                        n_staged += 1
+                        kept = os.path.join(d, "store", f"{n_staged}{os.path.splitext(p)[1]}")
+                        os.rename(p, kept)  # content and mtime stay what they were
+                        os.symlink(kept, p)
+                        set_link_time(p, t)
             else:
                 which, method, what = LOAD_OPS[op]
                 before = [file_sig(p) for p in caches]
@@ -463,7 +643,7 @@ def run_history(ops, col, inp, same_size_family=False):
                 msg = judge(obs, data)
                 if msg:
                     col.fail(
-                        f"history {ops[: step + 1]} in one process: the {what} at step {step + 1} (FASTA content {content.version}.{content.j}, "
+                        f"history {ops[: step + 1]} in one process{how}: the {what} at step {step + 1} (FASTA content {content.version}.{content.j}, "
                         f"{len(data)} bytes) silently yields something else than the current FASTA content: {msg}",
                         inp,
                     )
@@ -474,9 +654,11 @@ def run_history(ops, col, inp, same_size_family=False):
                     if a is not None and a != b:
                         written.append(p)
                         os.utime(p, (t, t))
+                        if os.path.islink(p):
+                            set_link_time(p, t)
                 if obs[0] == "ok" and need_rebuild and len(written) != 2:
                     col.fail(
-                        f"history {ops[: step + 1]}: a cache file was missing or not newer than the FASTA, but the {what} rewrote only "
+                        f"history {ops[: step + 1]}{how}: a cache file was missing or not newer than the FASTA, but the {what} rewrote only "
                         f"{[os.path.basename(p) for p in written]} (both must be rebuilt together)",
                         inp,
                     )
@@ -484,12 +666,38 @@ def run_history(ops, col, inp, same_size_family=False):
                 msg = cache_on_disk_claim(fa, data)
                 if msg:
                     col.fail(
-                        f"history {ops[: step + 1]}: after step {step + 1} ({what}) the cache files on disk are both newer than the FASTA, so "
+                        f"history {ops[: step + 1]}{how}: after step {step + 1} ({what}) the cache files on disk are both newer than the FASTA, so "
                         f"every later process takes them as valid, but they do not describe the FASTA content: {msg}",
                         inp,
                     )
                     return judged
     return judged
+
+
+def link_histories(max_len, layout):
+    """histories as in (a) plus the staging operation S; for the plain layout only those that stage (the others are in (a))"""
+    symbols = [(op, tick) for op in ("W", "Dfai", "Dagp", "L", "S") for tick in (0, 1)]
+    for n in range(1, max_len + 1):
+        for prefix in itertools.product(symbols, repeat=n - 1):
+            if layout == "plain" and not any(op == "S" for op, _ in prefix):
+                continue
+            for tick in (0, 1):
+                yield [list(x) for x in prefix] + [["L", tick]]
+
+
+def random_link_history(rng, length):
+    symbols = [(op, tick) for op in ("W", "W", "Dfai", "Dagp", "L", "L", "S", "S") for tick in (0, 1, 1)]
+    return [list(rng.choice(symbols)) for _ in range(length - 1)] + [["L", rng.choice((0, 1))]]
+
+
+# quick tier: a few longer histories with staged (symbolically linked) cache files, run in every layout
+STAGED_SAMPLES = [
+    [["L", 1], ["W", 1], ["S", 1], ["L", 1]],
+    [["L", 1], ["S", 1], ["W", 1], ["L", 1]],
+    [["L", 1], ["S", 1], ["W", 0], ["L", 1]],
+    [["L", 1], ["W", 1], ["S", 1], ["Dagp", 0], ["L", 0], ["W", 1], ["L", 1]],
+    [["L", 0], ["S", 1], ["L", 1], ["W", 1], ["Dfai", 1], ["L", 1], ["S", 1], ["W", 1], ["L", 1]],
+]
 
 
 def histories(max_len):
@@ -523,14 +731,31 @@ def random_session_history(rng, length):
 SCENARIOS = ("cold", "stale", "fai-missing", "agp-missing", "valid")
 
 
-def setup_scenario(d, scenario, big):
-    """returns (fasta path, current bytes)"""
-    fa = os.path.join(d, "asm.fa")
+SCENARIO_LAYOUTS = ("plain", "fasta-link", "cache-links", "all-links")
+
+
+def layout_words(layout):
+    return {
+        "plain": "",
+        "fasta-link": ", FASTA path a symbolic link to the real file",
+        "cache-links": ", cache files symbolic links made after the FASTA was written",
+        "all-links": ", FASTA path a chain of symbolic links and cache files symbolic links made after the FASTA was written",
+    }[layout]
+
+
+def setup_scenario(d, scenario, big, layout="plain"):
+    """
+    returns (fasta path, current bytes).  Times: links to the FASTA made 3000 s ago, stale cache written 2000 s ago, FASTA
+    written 1000 s ago, cache of the current content written 500 s ago, links to cache files made 100 s ago.
+    """
     old, cur = make_fasta(3, big), make_fasta(4, big)
-    with open(fa, "wb") as fh:
-        fh.write(cur)
     now = time.time()
-    os.utime(fa, (now - 1000, now - 1000))
+    fasta_layout = {"plain": "plain", "cache-links": "plain", "fasta-link": "link", "all-links": "chain"}[layout]
+    fa, _ = place_fasta(d, fasta_layout, cur, now - 1000)
+    if fasta_layout != "plain":
+        for p in (fa, os.path.join(d, "staged", "asm.fa")):
+            if os.path.islink(p):
+                set_link_time(p, now - 3000)
     if scenario == "stale":
         fai, agp = cache_texts(old)
         when = now - 2000
@@ -539,18 +764,67 @@ def setup_scenario(d, scenario, big):
         when = now - 500
     else:
         return fa, cur
-    if scenario != "fai-missing":
-        with open(fa + ".fai", "w") as fh:
-            fh.write(fai)
-        os.utime(fa + ".fai", (when, when))
-    if scenario != "agp-missing":
-        with open(fa + ".agp", "w") as fh:
-            fh.write(agp)
-        os.utime(fa + ".agp", (when, when))
+    for ext, text, missing in ((".fai", fai, "fai-missing"), (".agp", agp, "agp-missing")):
+        if scenario == missing:
+            continue
+        p = fa + ext
+        if layout in ("cache-links", "all-links"):
+            os.makedirs(os.path.join(d, "store"), exist_ok=True)
+            p = os.path.join(d, "store", "kept" + ext)
+            os.symlink(p, fa + ext)
+            set_link_time(fa + ext, now - 100)
+        with open(p, "w") as fh:
+            fh.write(text)
+        os.utime(p, (when, when))
     return fa, cur
 
 
-def count_events(scenario, big, text_events=False):
+class TmpPlacement:
+    """
+    context manager.  where == "other": TMPDIR (and tempfile's remembered choice) point to a fresh directory elsewhere, on
+    /dev/shm if that is usable (usually another file system), else in the ordinary temporary directory; shutil's sendfile
+    shortcut is off so that a copy is a sequence of write operations.  Anything else: nothing is changed.  The FASTA's
+    directory has to be made before entering.
+    """
+
+    FLAGS = ("_USE_CP_SENDFILE", "_USE_CP_COPY_FILE_RANGE")
+
+    def __init__(self, where):
+        self.other = where == "other"
+
+    def __enter__(self):
+        if not self.other:
+            return self
+        self.dir = None
+        if os.path.isdir("/dev/shm") and os.access("/dev/shm", os.W_OK | os.X_OK):
+            try:
+                self.dir = tempfile.mkdtemp(prefix="c15tmp", dir="/dev/shm")
+            except OSError:
+                pass
+        if self.dir is None:
+            self.dir = tempfile.mkdtemp(prefix="c15tmp")
+        self.saved = (os.environ.get("TMPDIR"), tempfile.tempdir, {f: getattr(shutil, f) for f in self.FLAGS if hasattr(shutil, f)})
+        os.environ["TMPDIR"] = self.dir
+        tempfile.tempdir = None
+        for f in self.saved[2]:
+            setattr(shutil, f, False)
+        return self
+
+    def __exit__(self, *exc):
+        if self.other:
+            env, remembered, flags = self.saved
+            if env is None:
+                os.environ.pop("TMPDIR", None)
+            else:
+                os.environ["TMPDIR"] = env
+            tempfile.tempdir = remembered
+            for f, v in flags.items():
+                setattr(shutil, f, v)
+            shutil.rmtree(self.dir, ignore_errors=True)
+        return False
+
+
+def count_events(scenario, big, text_events=False, layout="plain", tmp=None):
     n = [0]
     labels = []
 
@@ -559,43 +833,78 @@ def count_events(scenario, big, text_events=False):
         labels.append(f"{label} {os.path.basename(path)}")
 
     with tempfile.TemporaryDirectory() as d:
-        fa, _ = setup_scenario(d, scenario, big)
-        with FileOps(d, hook, text_events=text_events):
+        fa, _ = setup_scenario(d, scenario, big, layout)
+        with TmpPlacement(tmp), FileOps(d, hook, text_events=text_events):
             observe(fa)
     return n[0], labels
+
+
+# ------------------------------------------------------------------ (f) publication rule on complete runs
+
+
+def state_words(scenario, big, layout, tmp):
+    return (
+        f"{'big' if big else 'small'} input, cache state '{scenario}'{layout_words(layout)}"
+        + (", TMPDIR pointing to a directory elsewhere" if tmp == "other" else "")
+    )
+
+
+def publication_experiment(scenario, big, layout, tmp, method, col, inp):
+    """one complete, undisturbed run under the monitor of FileOps; then a fresh auto-load"""
+    with tempfile.TemporaryDirectory() as d:
+        fa, cur = setup_scenario(d, scenario, big, layout)
+        with TmpPlacement(tmp):
+            ops = FileOps(d, lambda label, path: None, fasta=fa, data=cur)
+            with ops:
+                obs = observe(fa, method=method)
+            head = f"{state_words(scenario, big, layout, tmp)}: a complete {method}() "
+            for v in ops.finish():
+                col.fail(head + f"breaks the rule that a cache file only ever appears by an atomic rename of a complete file within the FASTA's directory: {v}", inp)
+            msg = judge(obs, cur)
+            if msg:
+                col.fail(head + f"silently yields something else than the current FASTA content: {msg}", inp)
+                return
+            msg = judge(observe(fa), cur)
+            if msg:
+                col.fail(head + f"is followed by a fresh auto-load that silently shows: {msg}", inp)
+                return
+            msg = cache_on_disk_claim(fa, cur)
+            if msg:
+                col.fail(head + f"leaves cache files that pass for valid (both newer than the FASTA) but: {msg}", inp)
 
 
 # ------------------------------------------------------------------ (b) crash points
 
 
-def crash_experiment(scenario, big, k, col, inp, labels=None):
+def crash_experiment(scenario, big, k, col, inp, labels=None, layout="plain", tmp=None):
     with tempfile.TemporaryDirectory() as d:
-        fa, cur = setup_scenario(d, scenario, big)
-        pid = os.fork()
-        if pid == 0:
-            code = 0
-            try:
-                n = [0]
+        fa, cur = setup_scenario(d, scenario, big, layout)
+        with TmpPlacement(tmp):
+            pid = os.fork()
+            if pid == 0:
+                code = 0
+                try:
+                    n = [0]
 
-                def hook(label, path):
-                    if n[0] == k:
-                        os._exit(77)
-                    n[0] += 1
+                    def hook(label, path):
+                        if n[0] == k:
+                            os._exit(77)
+                        n[0] += 1
 
-                with FileOps(d, hook):
-                    FastaIndex(pathlib.Path(fa)).auto_load()
-            except BaseException:
-                code = 3
-            finally:
-                os._exit(code)
-        _, status = os.waitpid(pid, 0)
-        crashed = os.WIFEXITED(status) and os.WEXITSTATUS(status) == 77
-        obs = observe(fa)
+                    with FileOps(d, hook):
+                        FastaIndex(pathlib.Path(fa)).auto_load()
+                except BaseException:
+                    code = 3
+                finally:
+                    os._exit(code)
+            _, status = os.waitpid(pid, 0)
+            crashed = os.WIFEXITED(status) and os.WEXITSTATUS(status) == 77
+            obs = observe(fa)
         msg = judge(obs, cur)
         if msg:
             where = f"before file operation {k + 1}" + (f" ({labels[k]})" if labels and k < len(labels) else "") if crashed else "after completing"
             col.fail(
-                f"{'big' if big else 'small'} input, cache state '{scenario}': indexing run killed {where}; the next auto-load silently shows: {msg}",
+                f"{state_words(scenario, big, layout, tmp)}: indexing run killed {where}; the next auto-load silently shows: {msg}",
                 inp,
             )
         return crashed
@@ -617,10 +926,10 @@ def raise_injected(kind):
     raise SystemExit("injected (e.g. SIGTERM handler calling sys.exit)")
 
 
-def exception_experiment(scenario, big, k, kind, col, inp, labels=None):
+def exception_experiment(scenario, big, k, kind, col, inp, labels=None, layout="plain"):
     """the indexing run gets an exception of `kind` at event k (file operation or text-handle write); then a fresh auto-load"""
     with tempfile.TemporaryDirectory() as d:
-        fa, cur = setup_scenario(d, scenario, big)
+        fa, cur = setup_scenario(d, scenario, big, layout)
         n = [0]
         fired = [False]
 
@@ -631,7 +940,8 @@ def exception_experiment(scenario, big, k, kind, col, inp, labels=None):
                 raise_injected(kind)
 
         victim = None
-        with FileOps(d, hook, text_events=True):
+        ops = FileOps(d, hook, text_events=True, fasta=fa, data=cur)
+        with ops:
             try:
                 victim = FastaIndex(pathlib.Path(fa))
                 victim.auto_load()
@@ -641,7 +951,9 @@ def exception_experiment(scenario, big, k, kind, col, inp, labels=None):
                     raise  # not ours (a real Ctrl-C of the check itself)
                 outcome = f"ended in {type(e).__name__}"
         where = f"at event {k + 1}" + (f" ({labels[k]})" if labels and k < len(labels) else "")
-        head = f"{'big' if big else 'small'} input, cache state '{scenario}': indexing run hit by {kind} {where} and {outcome}; "
+        head = f"{state_words(scenario, big, layout, None)}: indexing run hit by {kind} {where} and {outcome}; "
+        for v in filter(first_report, ops.finish()):
+            col.fail(head + f"it breaks the rule that a cache file only ever appears by an atomic rename of a complete file within the FASTA's directory: {v}", inp)
         if fired[0] and outcome == "returned normally":
             try:
                 msg = judge(("ok", *snapshot(victim)), cur)
@@ -659,11 +971,11 @@ def exception_experiment(scenario, big, k, kind, col, inp, labels=None):
         return fired[0]
 
 
-def exception_points(scenario, big, quick):
+def exception_points(scenario, big, quick, layout="plain"):
     """(total, labels, ks): event numbers at which to inject.  All of them for the small input; for the big input every file
     operation (quick: from the first open-for-writing on), and of the ~3300 text-handle writes the first and last three of
     each file plus an even spread (quick: ~6 per file, thorough: ~60 per file)."""
-    total, labels = count_events(scenario, big, text_events=True)
+    total, labels = count_events(scenario, big, text_events=True, layout=layout)
     if not big:
         return total, labels, list(range(total + 1))
     ks = {total}
@@ -736,6 +1048,15 @@ class Sched:
 
 
 _VIEW_MEMO = {}
+_RULE_REPORTED = set()  # rule violations already reported by (c) / (d) in this run (the same one shows at every point)
+
+
+def first_report(v):
+    key = v[:70]
+    if key in _RULE_REPORTED:
+        return False
+    _RULE_REPORTED.add(key)
+    return True
 
 
 def reader_view(fa, cur):
@@ -785,7 +1106,8 @@ def interleave_experiment(scenario, big, i, j, col, inp, more_readers=False):
             finally:
                 sched.done(me)
 
-        with FileOps(d, sched.event, pid_of=lambda: pids.get(threading.current_thread().name)):
+        ops = FileOps(d, sched.event, pid_of=lambda: pids.get(threading.current_thread().name), fasta=fa, data=cur)
+        with ops:
             threads = [threading.Thread(target=worker, name=n, daemon=True) for n in ("A", "B")]
             for t in threads:
                 t.start()
@@ -802,6 +1124,12 @@ def interleave_experiment(scenario, big, i, j, col, inp, more_readers=False):
             sched.run_segment("B", None)
             for t in threads:
                 t.join(timeout=60)
+        for v in filter(first_report, ops.finish()):
+            col.fail(
+                f"{'big' if big else 'small'} input, cache state '{scenario}', schedule A x{i} / B x{j if j is not None else 'all'} / A / B breaks the rule "
+                f"that a cache file only ever appears by an atomic rename of a complete file within the FASTA's directory: {v}",
+                inp,
+            )
         for after, msg in mid:
             if msg:
                 col.fail(
@@ -832,16 +1160,21 @@ def interleave_experiment(scenario, big, i, j, col, inp, more_readers=False):
 def replay(inp):
     col = Collector("replay")
     _VIEW_MEMO.clear()
+    _RULE_REPORTED.clear()
     prev = logging.root.manager.disable
     logging.disable(logging.CRITICAL)
     try:
+        layout = inp.get("layout", "plain")
         if inp["kind"] == "history":
-            run_history(inp["ops"], col, inp, same_size_family=inp.get("gen") == "ss")
+            run_history(inp["ops"], col, inp, same_size_family=inp.get("gen") == "ss", layout=layout)
         elif inp["kind"] == "crash":
-            crash_experiment(inp["scenario"], inp["big"], inp["k"], col, inp)
+            labels = count_events(inp["scenario"], inp["big"], layout=layout, tmp=inp.get("tmp"))[1]
+            crash_experiment(inp["scenario"], inp["big"], inp["k"], col, inp, labels, layout=layout, tmp=inp.get("tmp"))
         elif inp["kind"] == "exception":
-            labels = count_events(inp["scenario"], inp["big"], text_events=True)[1]
-            exception_experiment(inp["scenario"], inp["big"], inp["k"], inp["exc"], col, inp, labels)
+            labels = count_events(inp["scenario"], inp["big"], text_events=True, layout=layout)[1]
+            exception_experiment(inp["scenario"], inp["big"], inp["k"], inp["exc"], col, inp, labels, layout=layout)
+        elif inp["kind"] == "publication":
+            publication_experiment(inp["scenario"], inp["big"], layout, inp.get("tmp"), inp["method"], col, inp)
         else:
             try:
                 interleave_experiment(inp["scenario"], inp["big"], inp["i"], inp["j"], col, inp, more_readers=True)
@@ -856,9 +1189,11 @@ def run(tier, seed, **opts):
     rng = random.Random(seed)
     quick = tier == "quick"
     _VIEW_MEMO.clear()
-    parts = opts.get("parts", "abcde")  # run only some of the five families (testing aid)
+    _RULE_REPORTED.clear()
+    parts = opts.get("parts", "abcdefg")  # run only some of the families (testing aid)
     max_len = 4 if quick else 5
     session_len = 3 if quick else 4
+    link_len = 3 if quick else 4
     col = Collector(
         f"(a) all histories of <= {max_len} operations over {{rewrite FASTA, delete .fai, delete .agp, auto-load}} x clock tick 0/1 "
         "before each operation, ending in an auto-load; (b) every crash point (before each file operation incl. every raw "
@@ -875,13 +1210,51 @@ def run(tier, seed, **opts):
         "rewrite other size, delete cache, auto-load / run_indexing() on a new / on one long-lived FastaIndex object}, ending in a load"
         + ("" if quick else ", plus 300 seeded random ones of 5-9 operations")
         + "; after (a), (d), (e) also the cache files on disk are read independently; "
-        "non-trivial = distinct histories / crash points / injection points / schedules",
+        "(f) publication rule: complete auto_load() / run_indexing() runs from the 5 cache states x small / big input x 4 layouts "
+        "(plain files; FASTA path a symbolic link; cache files symbolic links; both, FASTA through a chain of two links) x TMPDIR as "
+        "it is / pointing elsewhere, under interception: the final cache names may only appear by a rename of a complete file from "
+        "the same directory (no open-for-write or copy onto them, no temporary file in another directory), and the result and a "
+        f"fresh auto-load show the FASTA bytes; (g) all histories of <= {link_len} operations as in (a) plus 'stage' (cache files "
+        "present become symbolic links made now) with the FASTA path a symbolic link / a chain of links to the real file (rewritten "
+        "in place / replaced) or a plain file"
+        + (", plus 5 longer staged histories x 3 layouts" if quick else ", plus 200 seeded random ones of 5-8 operations per layout") + "; "
+        "(b) and (d) are repeated on the small input with symbolic links ("
+        + ("all-links layout, 2 cache states" if quick else "3 link layouts x 5 cache states, and the big input in the all-links layout") + "), "
+        "and (b) with TMPDIR elsewhere whenever the file operations of a run depend on TMPDIR; "
+        "non-trivial = distinct histories / crash points / injection points / schedules / complete runs",
         max_samples=8,
     )
     prev = logging.root.manager.disable
     logging.disable(logging.CRITICAL)
-    n_hist = n_crash = n_sched = n_exc = n_sess = 0
+    n_hist = n_crash = n_sched = n_exc = n_sess = n_pub = n_link = 0
     try:
+        # (f)
+        if "f" in parts:
+            for big, scenario, layout, tmp in itertools.product((False, True), SCENARIOS, SCENARIO_LAYOUTS, (None, "other")):
+                if col.full:
+                    break
+                if quick and big and layout in ("fasta-link", "cache-links"):
+                    continue
+                methods = ("auto_load",) if quick and (big or layout != "plain") else ("auto_load", "run_indexing")
+                for method in methods:
+                    inp = {"kind": "publication", "scenario": scenario, "big": big, "layout": layout, "tmp": tmp, "method": method}
+                    publication_experiment(scenario, big, layout, tmp, method, col, inp)
+                    col.case(("p", scenario, big, layout, tmp, method), sample=inp if (scenario, big, layout, tmp) == ("stale", False, "all-links", "other") else None)
+                    n_pub += 1
+        # (g)
+        for layout in ("link", "chain", "plain") if "g" in parts else ():
+            gen = itertools.chain(
+                link_histories(link_len, layout),
+                STAGED_SAMPLES if quick else (random_link_history(rng, rng.randint(5, 8)) for _ in range(200)),
+            )
+            for ops in gen:
+                if col.full:
+                    break
+                inp = {"kind": "history", "layout": layout, "ops": ops}
+                judged = run_history(ops, col, inp, layout=layout)
+                col.evaluations += max(0, judged - 1)
+                col.case(("l", layout, repr(ops)), sample=inp if n_link == 130 else None)
+                n_link += 1
         # (a)
         for ops in histories(max_len) if "a" in parts else ():
             if col.full:
@@ -893,36 +1266,54 @@ def run(tier, seed, **opts):
             n_hist += 1
         # (b)
         if hasattr(os, "fork") and "b" in parts:
-            for big in (False, True):
-                for scenario in SCENARIOS:
-                    if col.full:
-                        break
-                    total, labels = count_events(scenario, big)
+            if quick:
+                link_states = [(False, sc, "all-links") for sc in ("stale", "fai-missing")]
+            else:
+                link_states = [(False, sc, lay) for lay in SCENARIO_LAYOUTS[1:] for sc in SCENARIOS] + [(True, sc, "all-links") for sc in SCENARIOS]
+            for big, scenario, layout in [(big, sc, "plain") for big in (False, True) for sc in SCENARIOS] + link_states:
+                if col.full:
+                    break
+                placements = [(None, *count_events(scenario, big, layout=layout))]
+                if layout == "plain":
+                    # TMPDIR elsewhere: explored only if that changes what the run does with the files
+                    total2, labels2 = count_events(scenario, big, tmp="other")
+                    if labels2 != placements[0][2]:
+                        placements.append(("other", total2, labels2))
+                for tmp, total, labels in placements:
                     for k in range(total + 1):
                         inp = {"kind": "crash", "scenario": scenario, "big": big, "k": k}
-                        crash_experiment(scenario, big, k, col, inp, labels)
-                        col.case(("c", scenario, big, k), sample=inp if (scenario, big, k) == ("cold", False, 5) else None)
+                        if layout != "plain":
+                            inp["layout"] = layout
+                        if tmp:
+                            inp["tmp"] = tmp
+                        crash_experiment(scenario, big, k, col, inp, labels, layout=layout, tmp=tmp)
+                        col.case(("c", scenario, big, k, layout, tmp), sample=inp if (scenario, big, k, layout) == ("cold", False, 5, "plain") else None)
                         n_crash += 1
                         if col.full:
                             break
         # (d)
-        for big in (False, True) if "d" in parts else ():
-            for scenario in SCENARIOS:
+        if quick:
+            link_states = [(False, sc, "all-links") for sc in ("stale", "agp-missing")]
+        else:
+            link_states = [(False, sc, lay) for lay in SCENARIO_LAYOUTS[1:] for sc in SCENARIOS]
+        for big, scenario, layout in ([(big, sc, "plain") for big in (False, True) for sc in SCENARIOS] + link_states) if "d" in parts else ():
+            if col.full:
+                break
+            if big and quick and scenario not in ("stale", "fai-missing"):
+                continue  # quick, big input: one state where the .agp and one where the .fai is the file whose validity is at stake
+            total, labels, ks = exception_points(scenario, big, quick, layout)
+            for n, k in enumerate(ks):
+                kinds = EXC_KINDS if not big else (EXC_KINDS[n % 3],) if quick else (EXC_KINDS[n % 3], EXC_KINDS[(n + 1) % 3])
+                for kind in kinds:
+                    inp = {"kind": "exception", "scenario": scenario, "big": big, "k": k, "exc": kind}
+                    if layout != "plain":
+                        inp["layout"] = layout
+                    fired = exception_experiment(scenario, big, k, kind, col, inp, labels, layout=layout)
+                    assert fired == (k < total), (scenario, big, k, total)
+                    col.case(("x", scenario, big, k, kind, layout), sample=inp if (scenario, big, k, kind, layout) == ("stale", False, 12, "interrupt", "plain") else None)
+                    n_exc += 1
                 if col.full:
                     break
-                if big and quick and scenario not in ("stale", "fai-missing"):
-                    continue  # quick, big input: one state where the .agp and one where the .fai is the file whose validity is at stake
-                total, labels, ks = exception_points(scenario, big, quick)
-                for n, k in enumerate(ks):
-                    kinds = EXC_KINDS if not big else (EXC_KINDS[n % 3],) if quick else (EXC_KINDS[n % 3], EXC_KINDS[(n + 1) % 3])
-                    for kind in kinds:
-                        inp = {"kind": "exception", "scenario": scenario, "big": big, "k": k, "exc": kind}
-                        fired = exception_experiment(scenario, big, k, kind, col, inp, labels)
-                        assert fired == (k < total), (scenario, big, k, total)
-                        col.case(("x", scenario, big, k, kind), sample=inp if (scenario, big, k, kind) == ("stale", False, 12, "interrupt") else None)
-                        n_exc += 1
-                    if col.full:
-                        break
         # (e)
         if "e" in parts:
             gen = itertools.chain(
@@ -975,6 +1366,7 @@ def run(tier, seed, **opts):
         bounds=f"{n_hist} histories of length <= {max_len}; {n_crash} crash points (5 cache states x small / >8 KiB-cache input, every file "
         f"operation); {n_sched} two-process schedules with <= 2 preemptions; {n_exc} exception injections (cache states x small / big input x "
         f"file operations and text-handle writes x up to 3 exception kinds); {n_sess} one-process histories of length <= {session_len} "
-        "with same-size rewrites and long-lived objects" + ("" if quick else " (300 of them random, length 5-9)"),
+        "with same-size rewrites and long-lived objects" + ("" if quick else " (300 of them random, length 5-9)")
+        + f"; {n_pub} complete runs under the publication rule; {n_link} histories with symbolic links (FASTA path and / or staged cache files)",
         exhaustive=True,
     )
